@@ -63,12 +63,22 @@ def run(tier, replay=None):
             reader(0, hb, [1] * len(hb), 64, 64, 64, 0, True)  # one byte at a time
             reader(0, hb, [2, 3, 1, 7, 1, 1, 5], 64, 64, 64, 0, True)
             reader(0, hb, [len(hb)], 64, 64, 64, 0, True)
+            # no user buffers at all (NULL): the fields are skipped; whole, every split, byte by byte
+            reader(0, hb, [len(hb)], -1, -1, -1, 0, True)
+            reader(0, hb, [1] * len(hb), -1, -1, -1, 0, True)
+            for cut in range(1, hl + 1): reader(0, hb, [cut], -1, [-1, 64][cut % 2], -1, 0, True)
             # undersized buffers: one too small / exact, with growth (resume) and without
             nl, cl, el = len(f["name"]) + 1, len(f["comment"]) + 1, len(f["extra"])
             for nb, cb, eb in ((max(nl - 1, 0), 64, 64), (64, max(cl - 1, 0), 64), (64, 64, max(el - 1, 0)), (nl, cl, el), (1, 1, 1), (0, 0, 0)):
                 reader(0, hb, [len(hb)], nb, cb, eb, 7, True)
                 reader(0, hb, [3, 4, 1, 2, 9], nb, cb, eb, 1, True)
                 reader(0, hb, [len(hb)], nb, cb, eb, 0, False)
+    for mask in (2, 4, 6, 14, 15):          # empty FNAME / FCOMMENT (just the terminating NUL)
+        f = fields(rng, mask | 32); f["name"] = []; f["comment"] = []; f["extra"] = f["extra"][:5]
+        hb = gz_bytes(f) + body; hl = len(hb) - len(body)
+        for nbuf in (64, -1, 1):
+            reader(0, hb, [len(hb)], nbuf, nbuf, nbuf, 0, True)
+            for cut in range(1, hl + 1): reader(0, hb, [cut], nbuf, nbuf, nbuf, 0, True)
     # independent producer (python gzip module)
     for name in ("", "a", "some-file-name.txt"):
         b = io.BytesIO()
